@@ -440,7 +440,7 @@ CallGo(name, e, st) ==
          ELSE LET lo == IF name = "range" THEN a.vs[1].n ELSE a.vs[1].n + 1
                   hi == IF name = "range" THEN a.vs[2].n ELSE a.vs[2].n - 1
               \* (a span too long to write down: its first 16 numbers, then a marker -- a loop that gets that far is not specified)
-              IN IF lo >= 0 /\ hi - lo >= 16 THEN Ok(Iter([i \in 1..17 |-> IF i = 17 THEN [t |-> "endless"] ELSE I(lo + i - 1)]), s1)
+              IN IF lo >= 0 /\ hi - lo >= 100000 THEN Ok(Iter([i \in 1..17 |-> IF i = 17 THEN [t |-> "endless"] ELSE I(lo + i - 1)]), s1)
                  ELSE Ok(Iter([i \in 1..(IF hi >= lo THEN hi - lo + 1 ELSE 0) |-> I(lo + i - 1)]), s1)
     [] name \in {"blk", "blks"} ->   \* block helper: what its block renders to, in the caller's scope
          IF n # 0 \/ e.blk = NoBlock THEN Unspec(s1) ELSE RunBlockAsHTML(e.blk, s1, name = "blks", FALSE)
